@@ -28,6 +28,7 @@ type Query struct {
 	Trivial      bool
 	Instances    int
 	GroundScript string
+	Known        bool // obligation listed as a known finding: not escalated beyond the race stage
 }
 
 type QResult struct {
@@ -253,7 +254,7 @@ func solveAll(qs []*Query, timeout int, par int) []*QResult {
 	runStage(rest, p2, func(i int) *QResult { return solveRace(dir, i, qs[i], timeout, results[i]) })
 	var rest2 []int
 	for _, i := range rest {
-		if !decided(results[i]) {
+		if !decided(results[i]) && !qs[i].Known {
 			rest2 = append(rest2, i)
 		}
 	}
